@@ -127,6 +127,9 @@ func (p *ProjectionPlan) processProjection(kvp KVPair, ctx *ExecuteCtx) ([]Colum
 			float32, float64,
 			JSON, map[string]any, []any:
 			ret[i] = value
+		case []string, []int64, []float64, [][]byte:
+			// Typed lists returned by split, list, int_list and float_list
+			ret[i] = value
 		default:
 			if value == nil {
 				ret[i] = nil
